@@ -247,10 +247,26 @@ func (m *merged) add(l *line) {
 }
 
 func run(prop, tier string, seed int64, repo, replay, scratch string, spec propSpec, start time.Time) int {
-	bin, rw, err := build(repo, scratch, spec.race)
+	bin, rw, err := build(repo, scratch, false)
 	if err != nil {
 		fmt.Fprintf(os.Stderr, "check: engine error: %v\n", err)
 		return 2
+	}
+	type phase struct {
+		bin  string
+		name string
+		race bool
+	}
+	phases := []phase{{bin, "", false}}
+	if spec.race {
+		rbin, _, err := build(repo, scratch, true)
+		if err != nil {
+			fmt.Fprintf(os.Stderr, "check: engine error: %v\n", err)
+			return 2
+		}
+		// the same programs twice: under the race detector (few deviations), then
+		// without it for the deeper linearizability exploration
+		phases = []phase{{rbin, "race", true}, {bin, "lin", false}}
 	}
 	workers := spec.workers
 	if workers <= 0 {
@@ -265,58 +281,61 @@ func run(prop, tier string, seed int64, repo, replay, scratch string, spec propS
 	}
 	m := &merged{counts: map[string]int64{}, keys: map[string]map[uint64]struct{}{}, viols: map[string]*violation{}, meta: map[string]interface{}{}}
 	var wg sync.WaitGroup
-	engineErr := make(chan string, workers+1)
-	for i := 0; i < workers; i++ {
-		wg.Add(1)
-		go func(i int) {
-			defer wg.Done()
-			args := []string{"-prop", prop, "-tier", tier, "-shard", strconv.Itoa(i), "-nshards", strconv.Itoa(workers), "-seed", strconv.FormatInt(seed, 10)}
-			if budget > 0 {
-				args = append(args, "-budget", budget.String())
-			}
-			if replay != "" {
-				args = append(args, "-replay", replay)
-			}
-			cmd := exec.Command(bin, args...)
-			cmd.Dir = verifDir
-			cmd.Env = append(os.Environ(), "GOMAXPROCS=1", "GORACE=halt_on_error=0 history_size=3", "GOTRACEBACK=all")
-			stdout, _ := cmd.StdoutPipe()
-			var stderr bytes.Buffer
-			cmd.Stderr = &stderr
-			if err := cmd.Start(); err != nil {
-				engineErr <- fmt.Sprintf("worker %d: %v", i, err)
-				return
-			}
-			sc := bufio.NewScanner(stdout)
-			sc.Buffer(make([]byte, 1<<20), 1<<28)
-			sawDone := false
-			for sc.Scan() {
-				var l line
-				if err := json.Unmarshal(sc.Bytes(), &l); err != nil {
-					engineErr <- fmt.Sprintf("worker %d: bad line: %v", i, err)
-					continue
+	engineErr := make(chan string, 2*workers+2)
+	for _, ph := range phases {
+		ph := ph
+		for i := 0; i < workers; i++ {
+			wg.Add(1)
+			go func(i int) {
+				defer wg.Done()
+				args := []string{"-prop", prop, "-tier", tier, "-shard", strconv.Itoa(i), "-nshards", strconv.Itoa(workers), "-seed", strconv.FormatInt(seed, 10)}
+				if budget > 0 {
+					args = append(args, "-budget", budget.String())
 				}
-				if l.T == "done" {
-					sawDone = true
+				if replay != "" {
+					args = append(args, "-replay", replay)
 				}
-				m.add(&l)
-			}
-			err := cmd.Wait()
-			if spec.race {
-				m.mu.Lock()
-				m.races = append(m.races, stderr.String())
-				m.mu.Unlock()
-			}
-			if err != nil || !sawDone {
-				tail := stderr.String()
-				if len(tail) > 4000 {
-					tail = tail[len(tail)-4000:]
+				cmd := exec.Command(ph.bin, args...)
+				cmd.Dir = verifDir
+				cmd.Env = append(os.Environ(), "VERIF_PHASE="+ph.name, "GOMAXPROCS=1", "GORACE=halt_on_error=0 exitcode=0 history_size=2", "GOTRACEBACK=all")
+				stdout, _ := cmd.StdoutPipe()
+				var stderr bytes.Buffer
+				cmd.Stderr = &stderr
+				if err := cmd.Start(); err != nil {
+					engineErr <- fmt.Sprintf("worker %d: %v", i, err)
+					return
 				}
-				engineErr <- fmt.Sprintf("worker %d failed: %v (done=%v)\n%s", i, err, sawDone, tail)
-			}
-		}(i)
+				sc := bufio.NewScanner(stdout)
+				sc.Buffer(make([]byte, 1<<20), 1<<28)
+				sawDone := false
+				for sc.Scan() {
+					var l line
+					if err := json.Unmarshal(sc.Bytes(), &l); err != nil {
+						engineErr <- fmt.Sprintf("worker %d: bad line: %v", i, err)
+						continue
+					}
+					if l.T == "done" {
+						sawDone = true
+					}
+					m.add(&l)
+				}
+				err := cmd.Wait()
+				if ph.race {
+					m.mu.Lock()
+					m.races = append(m.races, stderr.String())
+					m.mu.Unlock()
+				}
+				if err != nil || !sawDone {
+					tail := stderr.String()
+					if len(tail) > 4000 {
+						tail = tail[len(tail)-4000:]
+					}
+					engineErr <- fmt.Sprintf("worker %d failed: %v (done=%v)\n%s", i, err, sawDone, tail)
+				}
+			}(i)
+		}
+		wg.Wait()
 	}
-	wg.Wait()
 	close(engineErr)
 	bad := false
 	for e := range engineErr {
